@@ -264,8 +264,16 @@ def one_case(seed, idx, res, kind=None):
         if len({a for a, _ in ents}) < len(ents):
             res["features"]["repeated-entries:" + key] += 1
     REC.reset()
-    others = list(getattr(c, "others", None) or ([c.target] + ([c.aux] if c.aux else [])))
-    out = A.run(A.make_ctx(c.test, funsigs=[f.sig for f in c.invs], overrides=dict(invariant_depth=c.depth), others=others))
+    others = list(c.others) if getattr(c, "others", None) is not None else ([c.target] + ([c.aux] if c.aux else []))
+    # the branching solver sometimes answers `unknown` (as its 1 ms time limit makes it do on hard constraints): infeasible sequences then reach
+    # the assertion solver, which answers unsat for them; that must not stop feasible ones from being reported
+    up = rng.choice([0.0, 0.0, 0.0, 0.5, 1.0])
+    res["features"][f"branching-unknown-p={up}"] += 1
+    symrun.MON.unknown_p, symrun.MON.unknown_rng = up, random.Random(idx)
+    try:
+        out = A.run(A.make_ctx(c.test, funsigs=[f.sig for f in c.invs], overrides=dict(invariant_depth=c.depth), others=others))
+    finally:
+        symrun.MON.unknown_p = 0.0
     # probes are solved asynchronously and nobody waits for them
     deadline = time.time() + 60
     for fut in list(REC.futures):
